@@ -254,8 +254,10 @@ fn run_draws(cx: &mut CaseCx, case: &Value) {
   let elems: Vec<BigUint> = (0..k).map(|j| se[(j + 1) % se.len()].clone()).collect();
   let secret = secret_bytes(&elems, 0);
   let key = cx.seed ^ 0xD7A3 ^ (t as u64) << 8 ^ k as u64;
+  let (sname, prefix) = streams().into_iter().nth(case["stream"].as_u64().unwrap_or(0) as usize).unwrap();
+  let fresh_stream = prefix.is_empty();
   let coeffs_of = |flip: Option<(u64, u64)>| -> Option<(Vec<BigUint>, u64)> {
-    let mut rng = ScriptRng::new(&[], key);
+    let mut rng = ScriptRng::new(&prefix, key);
     rng.flip = flip;
     let mut ev = guard(|| Sharks(t).dealer_rng(&secret, &mut rng).ok()).ok()??;
     let it: Vec<Share> = (0..t as usize).filter_map(|_| ev.next()).collect();
@@ -279,7 +281,7 @@ fn run_draws(cx: &mut CaseCx, case: &Value) {
   let mut sorted = base.clone();
   sorted.sort();
   sorted.dedup();
-  if sorted.len() != base.len() || base.iter().any(|c| c.is_zero()) {
+  if fresh_stream && (sorted.len() != base.len() || base.iter().any(|c| c.is_zero())) {
     cx.viol("C06/coefficients-not-separate-draws", format!("under a fresh random stream only {} of {} non-constant coefficients are distinct and non-zero: they are not separate draws", sorted.len(), base.len()), json!({"t": t, "k": k}));
   }
   if words == 0 && !base.is_empty() {
@@ -293,14 +295,14 @@ fn run_draws(cx: &mut CaseCx, case: &Value) {
     if let Some((dev, _)) = coeffs_of(Some((w, 1 << 5))) {
       let changed: Vec<usize> = (0..base.len()).filter(|&i| dev.get(i) != Some(&base[i])).collect();
       if changed.len() > 1 {
-        cx.viol("C06/coefficients-share-randomness", format!("flipping one bit of word {} of the random stream changes {} coefficients: coefficients are not drawn from disjoint parts of the source", w, changed.len()), json!({"t": t, "k": k, "word": w, "changed": changed}));
+        cx.viol("C06/coefficients-share-randomness", format!("flipping one bit of word {} of the random stream ({}) changes {} coefficients: coefficients are not separate draws from disjoint parts of the source (a draw was discarded or reused)", w, sname, changed.len()), json!({"t": t, "k": k, "word": w, "changed": changed, "stream": sname}));
       }
       for i in changed {
         touched[i] = true;
       }
     }
   }
-  if let Some(i) = touched.iter().position(|x| !x) {
+  if let Some(i) = touched.iter().position(|x| !x).filter(|_| fresh_stream) {
     cx.viol("C06/coefficient-independent-of-source", format!("coefficient {} is not influenced by any single word of the random stream", i), json!({"t": t, "k": k, "coefficient": i}));
   }
   cx.outcome(format!("t={} k={} words={}", t, k, words));
@@ -343,6 +345,15 @@ fn run_recover(cx: &mut CaseCx, case: &Value) {
   let mut rng3 = ScriptRng::new(&[], 77);
   let wide_secret = secret_bytes(&(0..k + 1).map(|j| se[j % se.len()].clone()).collect::<Vec<_>>(), 0);
   let wide = Sharks(t).dealer_rng(&wide_secret, &mut rng3).ok().and_then(|mut e| e.next());
+  // ... and narrower ones: no y at all, and k-1 elements
+  let mut foreign: Vec<Share> = wide.iter().cloned().collect();
+  foreign.push(Share { x: fp_from_big(&BigUint::from(77u32)).unwrap(), y: vec![] });
+  foreign.push(Share { x: fp_from_big(&BigUint::from(0u32)).unwrap(), y: vec![] });
+  if k >= 2 {
+    if let Some(w) = &wide {
+      foreign.push(Share { x: w.x, y: w.y[..k - 1].to_vec() });
+    }
+  }
   let (mut n_ok, mut n_err) = (0u64, 0u64);
   for_each_seq(n, n, |sel| {
     let shares: Vec<Share> = sel.iter().map(|&i| pool[i].clone()).collect();
@@ -385,7 +396,7 @@ fn run_recover(cx: &mut CaseCx, case: &Value) {
       Err(p) => cx.viol("C06/recover-panicked", p, det()),
     }
     // unequal width anywhere => Err
-    if let Some(w) = &wide {
+    for w in &foreign {
       if sel.len() >= 1 && sel.len() <= t as usize + 1 {
         for pos in 0..=sel.len() {
           let mut sh = shares.clone();
@@ -393,7 +404,7 @@ fn run_recover(cx: &mut CaseCx, case: &Value) {
           cx.eval();
           match guard(|| Sharks(t).recover(&sh).map_err(|e| e.to_string())) {
             Ok(Err(_)) => cx.count("unequal_width_refused", 1),
-            Ok(Ok(_)) => cx.viol("C06/unequal-width-accepted", format!("recover accepted shares of unequal length (foreign share at position {})", pos), det()),
+            Ok(Ok(b)) => cx.viol("C06/unequal-width-accepted", format!("recover accepted shares of unequal length (a share with {} y values at position {} among shares with {}) and returned {} bytes", w.y.len(), pos, k, b.len()), det()),
             Err(p) => cx.viol("C06/recover-panicked", p, det()),
           }
         }
@@ -522,6 +533,11 @@ pub fn spec() -> PropSpec {
                 continue;
               }
               v.push(json!({"t": t, "k": k}));
+              if t <= 8 {
+                // streams whose first draws are zero / rejected candidates: a zero draw is a draw like any other
+                v.push(json!({"t": t, "k": k, "stream": 1}));
+                v.push(json!({"t": t, "k": k, "stream": 2}));
+              }
             }
           }
           v
